@@ -316,7 +316,8 @@ def run_verus_unit(repo, unit_name, variant, workdir, log, only_fns=None):
         res["failures"] = mine
         failed_count = len(mine)
         if not mine:
-            res["status"] = "pass"
+            mine_screened = [f for f in screened if f["function"] in only_fns or f["function"] is None or f["function"] not in all_fn_names]
+            res["status"] = "undecided" if mine_screened else "pass"
     res["discharged"] = max(0, total - failed_count)
     res["generated_file"] = r["src"]
     return res
